@@ -22,6 +22,7 @@ import (
 	"go4.org/jsonconfig"
 	"perkeep.org/pkg/blob"
 	"perkeep.org/pkg/blobserver"
+	"perkeep.org/pkg/blobserver/files"
 	"perkeep.org/pkg/index"
 	"perkeep.org/pkg/schema"
 	"perkeep.org/pkg/search"
@@ -96,8 +97,8 @@ func (w *c14store) RemoveBlobs(ctx context.Context, blobs []blob.Ref) error {
 type c14kv struct{ sorted.KeyValue }
 
 func (k *c14kv) Get(key string) (string, error) { c14jit(); return k.KeyValue.Get(key) }
-func (k *c14kv) Set(key, value string) error     { c14jit(); return k.KeyValue.Set(key, value) }
-func (k *c14kv) Delete(key string) error         { c14jit(); return k.KeyValue.Delete(key) }
+func (k *c14kv) Set(key, value string) error    { c14jit(); return k.KeyValue.Set(key, value) }
+func (k *c14kv) Delete(key string) error        { c14jit(); return k.KeyValue.Delete(key) }
 func (k *c14kv) CommitBatch(b sorted.BatchMutation) error {
 	c14jit()
 	return k.KeyValue.CommitBatch(b)
@@ -282,6 +283,33 @@ type c14backend struct {
 	name     string
 	spec     *cfgNode
 	noRemove bool
+	build    func(dir string) (blobserver.Storage, error) // instead of spec
+}
+
+// the file-per-blob store over a VFS whose every call is preceded by a random yield or short sleep
+type c14vfs struct{ files.VFS }
+
+func (v *c14vfs) Remove(p string) error               { c14jit(); return v.VFS.Remove(p) }
+func (v *c14vfs) RemoveDir(p string) error            { c14jit(); return v.VFS.RemoveDir(p) }
+func (v *c14vfs) Stat(p string) (os.FileInfo, error)  { c14jit(); return v.VFS.Stat(p) }
+func (v *c14vfs) Lstat(p string) (os.FileInfo, error) { c14jit(); return v.VFS.Lstat(p) }
+func (v *c14vfs) MkdirAll(p string, m os.FileMode) error {
+	c14jit()
+	err := v.VFS.MkdirAll(p, m)
+	c14jit()
+	return err
+}
+func (v *c14vfs) Rename(a, b string) error { c14jit(); return v.VFS.Rename(a, b) }
+func (v *c14vfs) ReadDirNames(d string) ([]string, error) {
+	c14jit()
+	n, err := v.VFS.ReadDirNames(d)
+	c14jit()
+	return n, err
+}
+func (v *c14vfs) Open(p string) (files.ReadableFile, error) { c14jit(); return v.VFS.Open(p) }
+func (v *c14vfs) TempFile(d, pre string) (files.WritableFile, error) {
+	c14jit()
+	return v.VFS.TempFile(d, pre)
 }
 
 func (be c14backend) short() string {
@@ -293,6 +321,14 @@ func c14Backends() []c14backend {
 	return []c14backend{
 		{name: "memory", spec: mem()},
 		{name: "localdisk", spec: &cfgNode{Kind: "leaf", Leaf: "localdisk"}},
+		{name: "localdisk(queue directory)", spec: &cfgNode{Kind: "leaf", Leaf: "localdisk", Detail: "queue"}},
+		{name: "files(queue directory, yields around every file-system call)", build: func(dir string) (blobserver.Storage, error) {
+			root := filepath.Join(dir, "queue-verif")
+			if err := os.MkdirAll(root, 0o755); err != nil {
+				return nil, err
+			}
+			return files.NewStorage(&c14vfs{files.OSFS()}, root), nil
+		}},
 		{name: "diskpacked(packs of 300 bytes, memory index)", spec: &cfgNode{Kind: "leaf", Leaf: "diskpacked", Detail: "300,memory"}},
 		{name: "diskpacked(packs of 300 bytes, leveldb index)", spec: &cfgNode{Kind: "leaf", Leaf: "diskpacked", Detail: "300,leveldb"}},
 		{name: "blobpacked(memory)", spec: &cfgNode{Kind: "leaf", Leaf: "blobpacked", Detail: "memory"}},
@@ -476,18 +512,29 @@ func c14Store(c *ctx, dir string) {
 			}
 			d := filepath.Join(dir, fmt.Sprintf("p%d", nprog))
 			os.MkdirAll(d, 0o700)
-			bld := newBuilder(d)
-			bld.wrap = func(n *cfgNode, s blobserver.Storage) blobserver.Storage { return &c14store{s: s} }
-			bld.kv = func(kind, dd, n string) map[string]any {
-				return map[string]any{"type": "verifkv14", "inner": kvConf(kind, dd, n)}
-			}
-			root := cloneCfg(be.spec)
-			if err := bld.build(root); err != nil {
-				c.rep.Notes = append(c.rep.Notes, be.name+": "+err.Error())
-				break
+			var sto blobserver.Storage
+			var root *cfgNode
+			if be.build != nil {
+				var err error
+				if sto, err = be.build(d); err != nil {
+					c.rep.Notes = append(c.rep.Notes, be.name+": "+err.Error())
+					break
+				}
+			} else {
+				bld := newBuilder(d)
+				bld.wrap = func(n *cfgNode, s blobserver.Storage) blobserver.Storage { return &c14store{s: s} }
+				bld.kv = func(kind, dd, n string) map[string]any {
+					return map[string]any{"type": "verifkv14", "inner": kvConf(kind, dd, n)}
+				}
+				root = cloneCfg(be.spec)
+				if err := bld.build(root); err != nil {
+					c.rep.Notes = append(c.rep.Notes, be.name+": "+err.Error())
+					break
+				}
+				sto = root.sto
 			}
 			c14clock.Store(0)
-			recs, hung, panics := c14RunProgram(root.sto, use[:nb], progs)
+			recs, hung, panics := c14RunProgram(sto, use[:nb], progs)
 			where := fmt.Sprintf("%s, %d clients x %d calls over %d blobs (program %d)", be.name, nclients, per, nb, p)
 			c.count("backends", be.name)
 			c.count("clients", fmt.Sprint(nclients))
@@ -551,7 +598,9 @@ func c14Store(c *ctx, dir string) {
 					}
 				}
 			}
-			root.closeAll()
+			if root != nil {
+				root.closeAll()
+			}
 			os.RemoveAll(d)
 		}
 	}
@@ -567,8 +616,8 @@ func c14Index(c *ctx, dir string) {
 		must(err)
 		iw, err := newIndex(w, kv, true)
 		must(err)
-		nw := 2 + c.rng.Intn(5)  // feeders
-		nr := 1 + c.rng.Intn(5)  // queriers
+		nw := 2 + c.rng.Intn(5) // feeders
+		nr := 1 + c.rng.Intn(5) // queriers
 		npn := nw * (1 + c.rng.Intn(2))
 		// everything is signed beforehand (signing is not what is being interleaved)
 		type step struct {
